@@ -105,7 +105,24 @@ def model_to_dict(m, limit=40):
     try:
         for d in m.decls()[:limit]:
             v = m[d]
-            out[d.name()] = str(v)[:200]
+            if z3.is_string_value(v):
+                out[d.name()] = {'str': z3_unescape(v.as_string())}
+            elif z3.is_int_value(v):
+                out[d.name()] = {'int': v.as_long()}
+            else:
+                out[d.name()] = str(v)[:200]
     except Exception as e:  # pragma: no cover
         out['_error'] = repr(e)
     return out
+
+
+def z3_unescape(s):
+    import re as _re
+    def rep(m):
+        try:
+            return chr(int(m.group(1), 16))
+        except ValueError:
+            return m.group(0)
+    s = _re.sub(r'\\u\{([0-9a-fA-F]+)\}', rep, s)
+    s = _re.sub(r'\\x([0-9a-fA-F]{2})', rep, s)
+    return s
